@@ -144,8 +144,10 @@ def gen_addr(rng, peer, valid=0.6):
         return f"{host}/p2p/P{peer}"                                  # no transport
     if r < 0.89:
         return f"/tcp/{port}/p2p/P{peer}"                             # no host
-    if r < 0.93:
+    if r < 0.91:
         return f"/p2p/P{peer}"
+    if r < 0.93:
+        return host                                                    # host only
     if r < 0.97:
         return f"/{rng.choice(TAILS)}{host}/tcp/{port}/p2p/P{peer}"   # leading junk
     return f"{host}/tcp/{port}/{rng.choice(TAILS)}"
@@ -172,10 +174,12 @@ def gen_case(rng, n_ops):
     maxout = rng.choice(["none", "none", 0, 1, 2, 3, 5])
     cap = rng.choice(["default", 1, 2, 3, 3, 4, 5, 8])
     ops = [f"cfg tcp={tcp} maxout={maxout} cap={cap}"]
+    listening = []
     for _ in range(rng.choice([0, 1, 1, 2])):
         h = rng.choice(["/ip4/0.0.0.0", "/ip4/127.0.0.1", "/ip6/::", "/ip6/::1", "/ip4/10.0.0.1", "/ip4/8.8.8.8",
                         "/dns/example.com"])
-        ops.append(f"listen {h}/tcp/{rng.choice(PORTS)}")
+        listening.append(f"{h}/tcp/{rng.choice(PORTS)}")
+        ops.append(f"listen {listening[-1]}")
     pool = {}            # peer -> addresses used so far (for rediscovery / dial results)
     conns = []
     counter = [0]
@@ -195,7 +199,12 @@ def gen_case(rng, n_ops):
     for _ in range(n_ops):
         peer = rng.choice([1, 1, 1, 2, 2, 3, 5])
         r = rng.random()
-        if r < 0.10:
+        if r < 0.02 and listening:
+            # a listen address with other components around it: not the exact address, same ip and port
+            l = rng.choice(listening)
+            ops.append("islocal " + rng.choice([f"{l}/{rng.choice(TAILS)}", f"{l}/{rng.choice(TAILS)}/p2p/P{peer}", f"{l}/p2p/P{peer}",
+                                                l.replace("/tcp/", "/udp/"), l.replace("/tcp/", "/udp/") + "/quic-v1"]))
+        elif r < 0.10:
             ops.append(f"{rng.choice(['supported', 'parse', 'islocal'])} {gen_addr(rng, peer, 0.4)}")
         elif r < 0.38:
             k = rng.choice([1, 1, 1, 2, 2, 3, 4])
